@@ -35,6 +35,7 @@ type c06Op struct {
 	s2     int    // h: its stream index
 	mid    bool   // h: park in the middle of what the writer can send (else after its first octet)
 	pair   *c06Op // oo: the second request
+	glue   bool   // ps: the frame leaves in one segment with the frame of the next peer operation
 }
 
 type c06Run struct {
@@ -54,6 +55,9 @@ type c06Run struct {
 	exactHits    int      // header / trailer blocks of exactly the targeted length (adaptive scripts)
 	held         int      // operations issued while a writer was parked inside a DATA frame
 	pairs        int      // pairs of requests opened with the delay hook
+	lateHits     int      // ... that the client handled while the stream was still in cc.streams
+	late         int      // DATA frames sent after Body.Close and before the stream's teardown
+	glued        int      // SETTINGS frames sent in one segment with the next peer frame
 	streamOwed   int64    // worst stream-level credit owed on a response that is still being read
 	streamOwedAt uint32
 }
@@ -91,12 +95,36 @@ func c06ExecMode(t testing.TB, cfg c06Cfg, script []c06Op, gen func(e *c06Env, n
 		}
 		return 0
 	}
+	// a SETTINGS frame kept back (op.glue): its transcript entry is filled in once the segment has left
+	glueIdx, glueIWS := -1, false
+	unglue := func() {
+		e.releaseGlue()
+		run.transcript[glueIdx] = e.take(true)
+		glueIdx = -1
+	}
 	for n := 0; ; n++ {
 		var op *c06Op
 		if n < len(script) {
 			op = &script[n]
 		} else if gen != nil {
 			op = gen(e, n)
+		}
+		if glueIdx >= 0 {
+			follows := false
+			if op != nil {
+				switch op.kind {
+				case "pr", "pg", "pp", "ph", "pd", "pa":
+					follows = !op.rogue
+				case "pw": // (the peer's books for a stream window are only right once the ack was seen)
+					follows = !op.rogue && (op.s < 0 || !glueIWS) && op.b > 0 && op.b < 1<<30
+				}
+			}
+			if !follows {
+				unglue()
+				if n >= len(script) && gen != nil {
+					op = gen(e, n) // chosen again, on the state with the SETTINGS frame acknowledged
+				}
+			}
 		}
 		if op == nil || e.closed {
 			break
@@ -177,7 +205,27 @@ func c06ExecMode(t testing.TB, cfg c06Cfg, script []c06Op, gen func(e *c06Env, n
 				}
 			case "x":
 				if st2.res != nil && !st2.closedB {
-					tok = e.feedHeld(st.id, op.a, op.mid, "x", st2.id, 0)
+					tok = e.feedHeld(st.id, op.a, op.mid, "x", st2.id, op.b)
+					if e.lateTok != "" {
+						// two operations for the model: the close, then DATA on the forgotten stream; the
+						// WINDOW_UPDATE that returns that frame's octets is the second one's
+						fs := strings.Split(e.take(true), ",")
+						second, wf := "-", fmt.Sprintf("W0+%d", e.lateW)
+						for i, f := range fs {
+							if f == wf {
+								second = wf
+								fs = append(fs[:i:i], fs[i+1:]...)
+								break
+							}
+						}
+						if len(fs) == 0 || fs[0] == "X" || fs[0] == "T" {
+							fs = append([]string{"-"}, fs...)
+						}
+						run.tokens = append(run.tokens, tok, e.lateTok)
+						run.transcript = append(run.transcript, strings.Join(fs, ","), second)
+						run.late++
+						continue
+					}
 				}
 			case "c":
 				tok = e.feedHeld(st.id, op.a, op.mid, "c", st2.id, 0)
@@ -199,6 +247,23 @@ func c06ExecMode(t testing.TB, cfg c06Cfg, script []c06Op, gen func(e *c06Env, n
 				tok = e.closeBody(st.id)
 			}
 		case "ps":
+			// (not glued when it raises INITIAL_WINDOW_SIZE: a writer it wakes up sends DATA that could
+			// not be told from what the following frame sets off)
+			raises := len(e.pendSettings) > 0
+			for _, v := range op.vals {
+				raises = raises || (v.ID == xhttp2.SettingInitialWindowSize && int64(v.Val) > e.initWin)
+			}
+			if op.glue && !raises && !op.rogue && c06SettingsValid(op.vals) && !e.holding && e.pending == nil && glueIdx < 0 {
+				tok = e.peerSettingsHeld(op.vals)
+				glueIdx, glueIWS = len(run.transcript), false
+				for _, v := range op.vals {
+					glueIWS = glueIWS || v.ID == xhttp2.SettingInitialWindowSize
+				}
+				run.tokens = append(run.tokens, tok)
+				run.transcript = append(run.transcript, "?")
+				run.glued++
+				continue
+			}
 			tok = e.peerSettings(op.vals)
 		case "pa":
 			tok = e.peerAck()
@@ -227,11 +292,34 @@ func c06ExecMode(t testing.TB, cfg c06Cfg, script []c06Op, gen func(e *c06Env, n
 			tok = e.peerData(id(op), op.a, op.b, op.flag)
 		}
 		if tok == "" {
+			if glueIdx >= 0 {
+				unglue()
+			}
 			continue
 		}
 		wasClosed := run.closedAt >= 0
 		run.tokens = append(run.tokens, tok)
-		run.transcript = append(run.transcript, e.take(true))
+		if glueIdx >= 0 {
+			// one segment, two operations: the acknowledgement belongs to the SETTINGS frame, the rest
+			// to the frame that followed it
+			fs := strings.Split(e.take(true), ",")
+			first := "-"
+			for i, f := range fs {
+				if f == "A" {
+					first = "A"
+					fs = append(fs[:i:i], fs[i+1:]...)
+					break
+				}
+			}
+			if len(fs) == 0 || fs[0] == "X" || fs[0] == "T" {
+				fs = append([]string{"-"}, fs...)
+			}
+			run.transcript[glueIdx] = first
+			glueIdx = -1
+			run.transcript = append(run.transcript, strings.Join(fs, ","))
+		} else {
+			run.transcript = append(run.transcript, e.take(true))
+		}
 		if e.closed && !wasClosed {
 			run.closedAt = len(run.tokens) - 1
 			// closeOnIdle: the TCP close can be seen a moment before the last stream's donec closes
@@ -259,6 +347,7 @@ func c06ExecMode(t testing.TB, cfg c06Cfg, script []c06Op, gen func(e *c06Env, n
 	run.lostWakeups = append([]string{}, e.lostWakeups...)
 	run.exactHits = e.exactHits
 	run.held = e.heldCount
+	run.lateHits = e.lateHits
 	if !e.closed {
 		run.streamOwed, run.streamOwedAt = e.streamCreditOwed()
 	}
@@ -395,6 +484,28 @@ func c06Judge(s *verifh.Session, runs []*c06Run) {
 		}
 		for k := 0; k < r.pairs; k++ {
 			s.Count("open-pair")
+		}
+		for k := 0; k < r.glued; k++ {
+			s.Count("settings-glued-to-next-frame")
+		}
+		for k := 0; k < r.late; k++ {
+			s.Count("data-after-close")
+		}
+		for k := 0; k < r.lateHits; k++ {
+			s.Count("data-after-close-before-teardown")
+		}
+		for _, tok := range r.tokens {
+			if strings.HasPrefix(tok, "ps:") {
+				seen := map[string]bool{}
+				for _, kv := range strings.Split(tok[3:], "/") {
+					id := strings.SplitN(kv, "=", 2)[0]
+					if seen[id] {
+						s.Count("settings-repeated-id")
+						break
+					}
+					seen[id] = true
+				}
+			}
 		}
 		if !creditOK {
 			s.Count("credit-owed")
@@ -545,6 +656,53 @@ func c06TruncatedAtClose(impl, model []string) bool {
 	return true
 }
 
+// c06SettingsValid: no value a client must answer with a connection error.
+func c06SettingsValid(vals []xhttp2.Setting) bool {
+	for _, v := range vals {
+		if (v.ID == xhttp2.SettingInitialWindowSize && v.Val > math.MaxInt32) ||
+			(v.ID == xhttp2.SettingMaxFrameSize && (v.Val < 16384 || v.Val > 1<<24-1)) {
+			return false
+		}
+	}
+	return true
+}
+
+// c06Repeat: the class "a SETTINGS frame may name an identifier more than once; the values are
+// applied in the order of the frame, the last one stands" (RFC 9113 section 6.5.3). Earlier
+// occurrences of some of the frame's identifiers (legal values, the window ones no bigger than
+// what the peer may grant) are put in front of / between the others.
+func c06Repeat(r *rand.Rand, vals []xhttp2.Setting, maxIWS uint32) []xhttp2.Setting {
+	if len(vals) == 0 || r.Intn(3) != 0 {
+		return vals
+	}
+	out := append([]xhttp2.Setting{}, vals...)
+	for k := 1 + r.Intn(2); k > 0; k-- {
+		v := vals[r.Intn(len(vals))]
+		switch v.ID {
+		case xhttp2.SettingInitialWindowSize:
+			w := verifh.Pick(r, []uint32{0, 1, 16, 100, 16384, 65535, 1 << 20, 1 << 24, math.MaxInt32})
+			if w > maxIWS {
+				w = maxIWS
+			}
+			v.Val = w
+		case xhttp2.SettingMaxFrameSize:
+			v.Val = verifh.Pick(r, []uint32{16384, 16385, 65536, 1 << 20, 1<<24 - 1})
+		case xhttp2.SettingMaxConcurrentStreams:
+			v.Val = verifh.Pick(r, []uint32{0, 1, 2, 100, 1000})
+		}
+		// somewhere before the last occurrence of that identifier
+		last := 0
+		for i, o := range out {
+			if o.ID == v.ID {
+				last = i
+			}
+		}
+		at := r.Intn(last + 1)
+		out = append(out[:at:at], append([]xhttp2.Setting{v}, out[at:]...)...)
+	}
+	return out
+}
+
 func c06Set(id xhttp2.SettingID, v uint32) xhttp2.Setting { return xhttp2.Setting{ID: id, Val: v} }
 
 // c06Directed: fixed scripts around the boundaries the property names; they always run.
@@ -610,6 +768,20 @@ func c06Directed() []c06Script {
 	// 2. the same with a caller fingerprint that advertises SETTINGS_MAX_FRAME_SIZE = 1 MiB
 	big := c06Cfg{name: "caller-max-frame-1M", settings: []reqhttp2.Setting{{ID: reqhttp2.SettingMaxFrameSize, Val: 1 << 20}, {ID: reqhttp2.SettingInitialWindowSize, Val: 4 << 20}}}
 	add("caller-max-frame", big, S(), open(100000, true, 0), feed(0), wu(-1, 100000), wu(0, 100000), feed(0), feed(0), feed(0), feed(0), feed(0), feed(0))
+	// round 7: a SETTINGS frame that names an identifier more than once (applied in order, the last
+	// one stands), before the first request and with an upload parked on its window
+	iws := func(v uint32) xhttp2.Setting { return c06Set(xhttp2.SettingInitialWindowSize, v) }
+	mcs := func(v uint32) xhttp2.Setting { return c06Set(xhttp2.SettingMaxConcurrentStreams, v) }
+	mfs := func(v uint32) xhttp2.Setting { return c06Set(xhttp2.SettingMaxFrameSize, v) }
+	add("settings-repeat-first", def, S(iws(1<<20), mcs(100), iws(16), mfs(65536), mfs(16384), mcs(1)), open(40000, true, 0), feed(0), open(0, true, 0),
+		wu(0, 20000), feed(0), wu(0, 30000), feed(0), ph(0, true))
+	add("settings-repeat-open", def, cat([]c06Op{S(), open(100000, true, 0)}, rep(5, feed(0)),
+		[]c06Op{wu(-1, 100000), S(iws(1<<20), iws(65535+10)), S(iws(0), mfs(1<<20), iws(65535+20000), mfs(20000)), feed(0), S(iws(1<<20), iws(0)), feed(0), S(iws(0), iws(1<<20)), feed(0), feed(0)})...)
+	// round 7: a SETTINGS frame in one segment with a frame whose handling writes nothing - the
+	// acknowledgement must not wait for the client's next reason to write
+	SG := func(vals ...xhttp2.Setting) c06Op { return c06Op{kind: "ps", vals: vals, glue: true} }
+	add("settings-glued", def, SG(mcs(100)), wu(-1, 1000), open(0, true, 0), SG(iws(100)), ph(0, true), open(50000, true, 0), feed(1), SG(mfs(32768)), wu(1, 5),
+		SG(), c06Op{kind: "pa"}, SG(iws(10)), c06Op{kind: "pr", s: 1, b: 8}, open(0, true, 0), SG(), ping, SG(), c06Op{kind: "pg", a: 5})
 	// 3. Chrome preset: the peer sends 5 MiB on one stream, inside the advertised 6 MiB window,
 	//    before the caller reads anything
 	add("chrome-receive-window", chrome, cat([]c06Op{S(), open(0, true, 0), ph(0, false)}, rep(321, pd(0, 16384, 0, false)),
@@ -765,15 +937,16 @@ func c06Directed() []c06Script {
 	}
 	for _, c := range []c06Cfg{def, small} {
 		add("held-close-"+c.name, c, S(c06Set(xhttp2.SettingInitialWindowSize, 1<<20)), wu(-1, 1<<20), open(400000, true, 0),
-			open(0, true, 0), ph(1, false), pd(1, 16384, 0, false), pd(1, 5000, 0, false), held(0, "x", 1, 0, false),
+			open(0, true, 0), ph(1, false), pd(1, 16384, 0, false), pd(1, 5000, 0, false), held(0, "x", 1, 1, false),
 			open(0, true, 0), ph(2, false), pd(2, 8192, 0, false), pd(2, 8192, 7, true), held(0, "x", 2, 0, true),
 			open(0, true, 0), ph(3, false), pd(3, 16384, 0, false), held(0, "r", 3, 5000, false), held(0, "r", 3, 1000, true), held(0, "r", 3, 3000, false), held(0, "x", 3, 0, false),
 			open(0, true, 0), ph(4, false), pd(4, 4095, 0, false), held(0, "x", 4, 0, true),
-			open(0, true, 0), ph(5, false), pd(5, 6000, 0, false), rd(5, 6000), held(0, "x", 5, 0, false),
-			open(100, true, 0), held(0, "c", 6, 0, false),
-			open(0, true, 0), ph(7, false), pd(7, 9000, 0, true), held(0, "r", 7, 100000, true),
+			open(0, true, 0), ph(5, false), pd(5, 6000, 0, false), rd(5, 6000), held(0, "x", 5, 1, false),
+			open(0, true, 0), ph(6, false), held(0, "x", 6, 1, true), open(0, true, 0), ph(7, false), pd(7, 100, 0, false), held(0, "x", 7, 1, true),
+			open(100, true, 0), held(0, "c", 8, 0, false),
+			open(0, true, 0), ph(9, false), pd(9, 9000, 0, true), held(0, "r", 9, 100000, true),
 			// several later requests still get through a peer that enforces its windows
-			open(0, true, 0), ph(8, false), pd(8, 16384, 0, false), pd(8, 16384, 0, true), rd(8, 100000), ping)
+			open(0, true, 0), ph(10, false), pd(10, 16384, 0, false), pd(10, 16384, 0, true), rd(10, 100000), ping)
 	}
 	// 24. a request queued for a MAX_CONCURRENT_STREAMS slot while the peer changes its SETTINGS:
 	//     what the stream is opened with (send window, frame size, scratch buffer) is what is in
@@ -952,7 +1125,7 @@ func c06Gen(r *rand.Rand, maxOps int) func(e *c06Env, n int) *c06Op {
 			if r.Intn(2) == 0 {
 				vals = append(vals, c06Set(xhttp2.SettingMaxConcurrentStreams, verifh.Pick(r, []uint32{0, 1, 2, 3, 100})))
 			}
-			return &c06Op{kind: "ps", vals: vals}
+			return &c06Op{kind: "ps", vals: c06Repeat(r, vals, math.MaxInt32), glue: r.Intn(3) == 0}
 		}
 		if n >= maxOps {
 			return nil
@@ -1054,7 +1227,7 @@ func c06Gen(r *rand.Rand, maxOps int) func(e *c06Env, n int) *c06Op {
 					var cands []c06Op
 					for _, i := range closable {
 						if i != fs {
-							cands = append(cands, c06Op{kind: "h", s: fs, a: nn, sub: "x", s2: i}, c06Op{kind: "h", s: fs, a: nn, sub: "x", s2: i})
+							cands = append(cands, c06Op{kind: "h", s: fs, a: nn, sub: "x", s2: i}, c06Op{kind: "h", s: fs, a: nn, sub: "x", s2: i, b: 1})
 						}
 					}
 					for _, i := range readable {
@@ -1112,7 +1285,16 @@ func c06Gen(r *rand.Rand, maxOps int) func(e *c06Env, n int) *c06Op {
 				if r.Intn(8) == 0 {
 					vals = append(vals, c06Set(xhttp2.SettingHeaderTableSize, 4096), c06Set(xhttp2.SettingID(0x99), 7))
 				}
-				return &c06Op{kind: "ps", vals: vals}
+				maxIWS := int64(math.MaxInt32) // an earlier occurrence must not push a window over 2^31-1 either
+				for _, st := range e.streams {
+					if m := math.MaxInt32 - st.win + e.initWin; m < maxIWS {
+						maxIWS = m
+					}
+				}
+				if maxIWS < 0 || len(e.pendSettings) > 0 {
+					maxIWS = 0
+				}
+				return &c06Op{kind: "ps", vals: c06Repeat(r, vals, uint32(maxIWS)), glue: r.Intn(3) == 0}
 			case k < 55:
 				if e.acksSent > 0 {
 					continue
@@ -1235,7 +1417,7 @@ func c06Gen(r *rand.Rand, maxOps int) func(e *c06Env, n int) *c06Op {
 // against the Lean strict-peer monitor.
 func TestVerif_C06_script(t *testing.T) {
 	s := verifh.New(t, "C06", "script",
-		"real ClientConn (Transport.NewClientConn, loopback TCP) against a frame-script peer (x/net/http2 Framer + hpack), one caller/peer operation at a time to quiescence; 59 directed scripts (body sizes around 16384/65535/window+-1, INITIAL_WINDOW_SIZE up/down/negative, MAX_FRAME_SIZE, MAX_CONCURRENT_STREAMS, WINDOW_UPDATE increments and overflow, RST_STREAM, GOAWAY, padding, reads around the 4096 refresh threshold, close with unread data, browser presets, caller fingerprints; round 5, through a gate between the ClientConn and the socket that parks the writer inside a frame write: a request cancelled after a chosen octet of its header / trailer block (oc, tc), Body.Close / Body.Read / cancel on one stream while another stream's writer holds cc.wmu inside a DATA frame (hx, hr, hc), two requests with the first held between id allocation and HEADERS (open pairs), requests queued for a stream slot across SETTINGS changes) + random scripts of up to 60 operations on default/Chrome/Firefox/Safari/random fingerprints; compared: per-operation frame list (type, stream, length, flags, settings, increments) with the Lean model; property oracle: Lean monitor verdict on the recorded history, no unexpected connection close, no stall, connection- and stream-level credit owed < 4096, no lost wake-up; non-trivial = at least 4 operations")
+		"real ClientConn (Transport.NewClientConn, loopback TCP) against a frame-script peer (x/net/http2 Framer + hpack), one caller/peer operation at a time to quiescence; 62 directed scripts (body sizes around 16384/65535/window+-1, INITIAL_WINDOW_SIZE up/down/negative, MAX_FRAME_SIZE, MAX_CONCURRENT_STREAMS, WINDOW_UPDATE increments and overflow, RST_STREAM, GOAWAY, padding, reads around the 4096 refresh threshold, close with unread data, browser presets, caller fingerprints; round 5, through a gate between the ClientConn and the socket that parks the writer inside a frame write: a request cancelled after a chosen octet of its header / trailer block (oc, tc), Body.Close / Body.Read / cancel on one stream while another stream's writer holds cc.wmu inside a DATA frame (hx, hr, hc), two requests with the first held between id allocation and HEADERS (open pairs), requests queued for a stream slot across SETTINGS changes; round 7: SETTINGS frames that repeat identifiers (last one stands), SETTINGS sent in one segment with the next peer frame (acknowledged before any barrier PING), DATA sent after Body.Close while the stream's teardown waits for cc.wmu) + random scripts of up to 60 operations on default/Chrome/Firefox/Safari/random fingerprints; compared: per-operation frame list (type, stream, length, flags, settings, increments) with the Lean model; property oracle: Lean monitor verdict on the recorded history, no unexpected connection close, no stall, connection- and stream-level credit owed < 4096, no lost wake-up; non-trivial = at least 4 operations")
 	log.SetOutput(io.Discard)
 	s.OracleIndependent = true // DATA/WINDOW_UPDATE sizes are the implementation's choice, the monitor is the property
 	var runs []*c06Run
